@@ -261,4 +261,5 @@ def run(facts, rep, ctx):
     """rules added after the fifth seeding round (rules/round6.py)"""
     _run_before_round6(facts, rep, ctx)
     from . import round6
+    round6.cf2(facts, rep, ['alignment::pairwise::', 'alignment::sparse::'], 100)
     round6.cl1(facts, rep, ['alignment::pairwise::banded::Aligner'])
